@@ -658,7 +658,7 @@ def gen_ring(rng, uid):
 
 def generated_designs(ck, lines, meta):
   rng = ck.rng
-  n = 110 if ck.tier == 'quick' else 3000
+  n = 110 if ck.tier == 'quick' else 900
   for i in range(n):
     r = rng.random()
     uid = next(_uid)
